@@ -231,6 +231,13 @@ func (ff *faultFile) genFaults(rng *rand.Rand, tier string) []fault {
 			fs = append(fs, fault{"burst-aligned", off, hex.EncodeToString(b)})
 		}
 	}
+	// extreme 4-byte bursts at every offset: all bits inverted, top bit only, all but the top bit
+	// (a length, offset or count field then holds a value near 2^32 or 2^31, where 32-bit arithmetic wraps)
+	for off := 0; off < end; off++ {
+		for _, x := range []string{"ffffffff", "80000000", "7fffffff", "ffff0000"} {
+			fs = append(fs, fault{"burst-extreme", off, x})
+		}
+	}
 	// unaligned bursts: <= 32 consecutive bits in CRC bit order (LSB first within a byte)
 	for i := 0; i < end*per; i++ {
 		off := rng.Intn(end)
@@ -251,6 +258,13 @@ func (ff *faultFile) genFaults(rng *rand.Rand, tier string) []fault {
 			b := make([]byte, 4)
 			rng.Read(b)
 			fs = append(fs, fault{"length-field", s.Off + 4, hex.EncodeToString(b)})
+		}
+		// the length field set to values at the edges of the 32-bit range (xor pattern = target xor current)
+		for _, target := range []uint32{0xffffffff, 0xfffffff0, 0x80000000, 0x7fffffff, 0xffff0000, uint32(len(ff.base)), uint32(len(ff.base)) - uint32(s.Off) + 1, 0, 1, 14, 15} {
+			x := target ^ uint32(s.Len)
+			if x != 0 {
+				fs = append(fs, fault{"length-field", s.Off + 4, fmt.Sprintf("%08x", x)})
+			}
 		}
 		fs = append(fs, fault{"magic-swap", s.Off, "150217040b"[:8]}) // SPAN xor FREE
 		if s.Active && s.Len >= 6 {
